@@ -284,6 +284,7 @@ PREPARERS = {
     "spec": ["noop"], "dict": ["noop"], "set": ["noop"], "keyedlist": ["noop"], "keyedset": ["noop"],
 }
 ITEM_PREPARERS = {"int": ["abs"], "str": ["strip"], "float": ["abs"]}
+ITEM_PREPARER_PAIRS = {"int": ("abs", "neg_abs"), "str": ("strip", "upper"), "float": ("abs", "floor")}  # (a parent's hook, what a child overrides it with)
 
 
 def conforming_default(v, T):
@@ -434,6 +435,12 @@ def gen_world(src, profile):
         if cands:
             a = src.pick(cands)
             a["default"] = ["cached_prop", a["default"][1]]
+            rest = [b for b in cands if b is not a]
+            if rest and src.chance(1, 2):
+                # a second managed attribute derived WITHOUT caching from the cached one: reading it (as every update / transform /
+                # element helper must) evaluates the caching getter too
+                b = src.pick(rest)
+                b["default"] = ["derived_prop", b["default"][1], a["name"]]
     for c in world["classes"]:
         d = [a["name"] for a in c["attrs"] if a.get("do_not_copy") == "decorator"]
         if d:
@@ -454,15 +461,22 @@ def gen_world(src, profile):
                     c.setdefault("prepare_item", {})[a["name"]] = src.pick(ITEM_PREPARERS[elem_type(T)[0]])
             if (c.get("prepare") or c.get("prepare_item")) and src.chance(1, 3) and "prepare_style" not in c:
                 c["prepare_style"] = "decorator"  # registered through `@<attr>.preparer` where the attribute is declared with Attr(...)
-        if has_parent and src.chance(1, 5):
+        if has_parent and src.chance(1, 3):
             # M overrides (or introduces) the `_prepare_<attr>` / `_prepare_<singular>` hook of an attribute it merely inherits
             pdesc = next(c for c in world["classes"] if c["name"] == "P")
             a = src.pick(p_attrs)
             T = a["type"]
+            ways = []
             if T[0] in PREPARERS and len(PREPARERS[T[0]]) > 1 and a["name"] not in mdesc.get("prepare", {}):
+                ways.append("attr")
+            if is_collection(T) and elem_type(T)[0] in ITEM_PREPARER_PAIRS and a["name"] not in mdesc.get("prepare_item", {}):
+                ways += ["item", "item"]
+            way = src.pick(ways) if ways else None
+            if way == "attr":
                 mdesc.setdefault("prepare", {})[a["name"]] = next(p for p in PREPARERS[T[0]] if p != (pdesc.get("prepare") or {}).get(a["name"]))
-            elif is_collection(T) and elem_type(T)[0] == "int" and a["name"] not in mdesc.get("prepare_item", {}):
-                mdesc.setdefault("prepare_item", {})[a["name"]] = "neg_abs" if (pdesc.get("prepare_item") or {}).get(a["name"]) == "abs" else "abs"
+            elif way == "item":
+                first, second = ITEM_PREPARER_PAIRS[elem_type(T)[0]]
+                mdesc.setdefault("prepare_item", {})[a["name"]] = second if (pdesc.get("prepare_item") or {}).get(a["name"]) == first else first
 
     inst = "M"
     if profile.get("inheritance", True):
@@ -655,6 +669,10 @@ class World:
 
                     # a managed attribute whose value is derived (and cached on first read) until it is assigned
                     ns[a["name"]] = spec_property(self._factory_getter(d[1]), cache=True, overridable=True)
+                elif style == "derived_prop":
+                    from spec_classes import spec_property
+
+                    ns[a["name"]] = spec_property(self._factory_getter(d[1], reads=d[2]), cache=False, overridable=True)
                 elif style == "lit":
                     ns[a["name"]] = self._default_obj(d[1])
                 elif style == "attr_default":
@@ -758,10 +776,12 @@ class World:
         self.default_objects.append(v)
         return v
 
-    def _factory_getter(self, vdesc):
+    def _factory_getter(self, vdesc, reads=None):
         world = self
 
         def getter(instance):
+            if reads is not None:
+                getattr(instance, reads, None)
             return world.realize(vdesc)
 
         return getter
